@@ -160,7 +160,13 @@ pub struct Ctx<'a> {
     pub announce: Option<&'a dyn Fn(&Value)>,
     /// signatures already reported in this worker (dedup)
     pub seen: &'a mut HashSet<String>,
+    /// stream that decides the execution environment of each case
+    pub env_rng: Rng,
 }
+
+/// One case in every `ENV_EVERY` runs in an environment other than the plain
+/// one (see `env.rs`).
+pub const ENV_EVERY: u64 = 10;
 
 impl<'a> Ctx<'a> {
     /// Execute one materialisable case of scenario `S`; record a failure.
@@ -169,18 +175,50 @@ impl<'a> Ctx<'a> {
             a(&serde_json::to_value(case).unwrap());
         }
         self.obs.evaluations += 1;
-        match S::execute(case, self.obs) {
+        let env = if S::environments() && self.env_rng.below(ENV_EVERY) == 0 {
+            let e = crate::env::draw_env(&mut self.env_rng);
+            self.obs.count(match &e {
+                crate::env::Env::After(_) => "env:after-refused-operation",
+                crate::env::Env::Unwinding => "env:while-unwinding",
+                crate::env::Env::AfterThenUnwinding(_) => "env:after-refused-operation-while-unwinding",
+            });
+            Some(e)
+        } else {
+            None
+        };
+        let obs = &mut *self.obs;
+        match crate::env::in_env(env.as_ref(), || S::execute(case, obs)) {
             Ok(()) => true,
             Err(f) => {
+                let f = crate::env::annotate(f, env.as_ref());
                 let sig = f.signature();
                 self.obs.count(&format!("violation:{}", sig));
                 if self.seen.len() < FAIL_CAP_PER_WORKER && self.seen.insert(sig) {
-                    self.fails.push((serde_json::to_value(case).unwrap(), f));
+                    let cv = serde_json::to_value(case).unwrap();
+                    let cv = match &env {
+                        Some(e) => serde_json::json!({"__env": e, "case": cv}),
+                        None => cv,
+                    };
+                    self.fails.push((cv, f));
                 }
                 false
             }
         }
     }
+}
+
+/// Split the environment envelope off a materialised case.
+pub fn split_env(v: &Value) -> (Option<crate::env::Env>, &Value) {
+    if let Some(o) = v.as_object() {
+        if o.len() == 2 {
+            if let (Some(e), Some(c)) = (o.get("__env"), o.get("case")) {
+                if let Ok(env) = serde_json::from_value::<crate::env::Env>(e.clone()) {
+                    return (Some(env), c);
+                }
+            }
+        }
+    }
+    (None, v)
 }
 
 pub struct Meta {
@@ -216,6 +254,11 @@ pub trait Scenario: 'static {
     fn runs_per_process(_tier: Tier) -> u64 {
         u64::MAX
     }
+    /// Whether cases of this scenario are also executed in the environments
+    /// of `env.rs` (after a refused operation, while unwinding).
+    fn environments() -> bool {
+        true
+    }
 }
 
 pub struct DynScenario {
@@ -232,20 +275,39 @@ pub struct DynScenario {
 }
 
 fn exec_json<S: Scenario>(v: &Value, obs: &mut Obs) -> Result<Result<(), Failure>, String> {
-    let case: S::Case = serde_json::from_value(v.clone()).map_err(|e| e.to_string())?;
+    let (env, inner) = split_env(v);
+    let case: S::Case = serde_json::from_value(inner.clone()).map_err(|e| e.to_string())?;
     obs.evaluations += 1;
-    Ok(S::execute(&case, obs))
+    let r = crate::env::in_env(env.as_ref(), || S::execute(&case, obs));
+    Ok(r.map_err(|f| crate::env::annotate(f, env.as_ref())))
 }
 
 fn shrink_json<S: Scenario>(v: &Value) -> Vec<Value> {
-    let case: S::Case = match serde_json::from_value(v.clone()) {
+    let (env, inner) = split_env(v);
+    let case: S::Case = match serde_json::from_value(inner.clone()) {
         Ok(c) => c,
         Err(_) => return Vec::new(),
     };
-    S::shrink(&case)
-        .into_iter()
-        .map(|c| serde_json::to_value(&c).unwrap())
-        .collect()
+    let mut out = Vec::new();
+    if let Some(e) = &env {
+        // first without the environment, then with a simpler one
+        out.push(inner.clone());
+        match e {
+            crate::env::Env::AfterThenUnwinding(p) => {
+                out.push(serde_json::json!({"__env": crate::env::Env::After(p.clone()), "case": inner}));
+                out.push(serde_json::json!({"__env": crate::env::Env::Unwinding, "case": inner}));
+            }
+            _ => {}
+        }
+    }
+    for c in S::shrink(&case) {
+        let cv = serde_json::to_value(&c).unwrap();
+        out.push(match &env {
+            Some(e) => serde_json::json!({"__env": e, "case": cv}),
+            None => cv,
+        });
+    }
+    out
 }
 
 pub fn dyn_of<S: Scenario>() -> DynScenario {
@@ -319,6 +381,10 @@ pub fn guard<R>(f: impl FnOnce() -> R) -> Result<R, Caught> {
             if p.downcast_ref::<crate::seams::StepBudgetExceeded>().is_some() {
                 return Err(Caught::StepBudget);
             }
+            if p.downcast_ref::<crate::seams::WriterFull>().is_some() {
+                LAST_PANIC.with(|p| p.borrow_mut().take());
+                return Err(Caught::Panic("<simulated writer is full>".into()));
+            }
             let s = LAST_PANIC
                 .with(|p| p.borrow_mut().take())
                 .unwrap_or_else(|| "unknown".into());
@@ -355,4 +421,15 @@ pub struct ReplayFile {
     pub original_case: Option<Value>,
     #[serde(default)]
     pub how_to_replay: String,
+}
+
+
+/// Run `f` to completion on a newly created thread (nothing left in
+/// thread-local storage by earlier cases is visible to it, and nothing it
+/// leaves is visible later). A panic of `f` continues on the caller.
+pub fn on_fresh_thread<R: Send>(f: impl FnOnce() -> R + Send) -> R {
+    match std::thread::scope(|s| s.spawn(f).join()) {
+        Ok(r) => r,
+        Err(p) => std::panic::resume_unwind(p),
+    }
 }
